@@ -804,6 +804,8 @@ def _run(ctx):
     ctx.copy_src('Props/C17.v')
     compiled = ctx.compile(['Gen_vineclip.v', 'Gen_vinekernel.v', 'C17.v'])
     compiled = vinedatagen.hook(ctx, kstatus) and compiled      # data plane generated from the AST: Gen_vinedata.v, Props/C17_data.v
+    from .. import vinesamplegen
+    compiled = vinesamplegen.hook(ctx) and compiled             # outer loop of _sample_row, sample: Gen_vinesample.v, Props/C17_sample.v
     ctx.rule('fits: VineCopula(type).fit(vinestruct.make_table(seed, d, n, kind), truncated=t) for type in center/direct/regular, d = 2..6, t in {1,2,3,d-1}, '
              'n = 60..100 rows, table kinds Gaussian / strongly dependent / heavy-tailed / non-linear / independent / rounded (ties), plus three fixed tables whose '
              'fitted structure is the witness of a refutation theorem; arrays tagged by content; np.empty of copulas.multivariate.tree / vine replaced by logging '
